@@ -12,7 +12,7 @@ open Opus Opus.RangeCoder Opus.SilkSyms Opus.SilkSymsEnc Opus.SilkSymsFrozen.Icd
     `iter` blocks: the same number for every frame length SILK uses. -/
 theorem signBlocks_eq (rate : Rate) {nbSubfr : Nat} (hnb : nbSubfr = 2 ∨ nbSubfr = 4) :
     (frameLength rate nbSubfr + 8) / 16 = shellBlocks (frameLength rate nbSubfr) := by
-  rcases hnb with rfl | rfl <;> cases rate <;> decide
+  rcases hnb with rfl | rfl <;> cases rate <;> decide +kernel
 
 /-- One frame: `decodeOneCore` returns the indices and pulses `encodeFrame` was given. -/
 theorem decodeOneCore_spec {cfg : Cfg} {n fi lbrrN cc prevSig : Nat} {lbrr v : Bool} {prevLag : Int}
@@ -36,11 +36,11 @@ theorem decodeOneCore_spec {cfg : Cfg} {n fi lbrrN cc prevSig : Nat} {lbrr v : B
   split
   rename_i ix' c1 e1
   rw [decodeIndices_spec hix (by omega) ha h.1] at e1
-  cases e1
+  obtain ⟨rfl, rfl⟩ := Prod.mk.inj e1
   split
   rename_i pu c2 e2
   rw [decodePulses_spec hp (signBlocks_eq _ hnb) h.2] at e2
-  cases e2
+  obtain ⟨rfl, rfl⟩ := Prod.mk.inj e2
   rfl
 
 /-- Legality of the operations of one frame. -/
@@ -109,6 +109,78 @@ theorem bitsOps_mono1 {vad : Nat} (hv : vad ≤ 1) : bitsOps (2 * vad) 2 = flagO
   have : vad = 0 ∨ vad = 1 := by omega
   rcases this with rfl | rfl <;> rfl
 
+/-! ### `silk_Decode` for one channel (the control flow around the frame) -/
+
+theorem decodeStereoHead_mono {cfg : Cfg} (hc : cfg.nCh = 1) (st : SilkSt) (dom : Nat) (c : Dec) :
+    decodeStereoHead cfg st dom c = (dom, c, []) := by
+  unfold decodeStereoHead decodeStereoHeadG
+  rw [if_neg (by rw [hc]; intro h; exact absurd h.1 (by decide))]
+
+theorem decodeChans_mono {cfg : Cfg} (hc : cfg.nCh = 1) (hs : Bool) (st : SilkSt) (c : Dec) :
+    decodeChans cfg hs st c = decodeChan cfg hs 0 st c := by
+  unfold decodeChans
+  split
+  rename_i e0 st1 c1 he
+  rw [if_neg (by rw [hc]; decide), he]
+
+theorem decodeBody_mono {cfg : Cfg} (hc : cfg.nCh = 1) (h : SkipSt) {e2 : List Ev} {st2 : SilkSt} {c2 : Dec}
+    (hch : decodeChan cfg (hasSideOf cfg h.st h.dom) 0 h.st h.c = (e2, st2, c2)) :
+    decodeBody cfg h = (h.evs ++ [] ++ e2 ++ [.ret c2.rng (tell c2)], { st2 with prevDecodeOnlyMiddle := h.dom }, c2) := by
+  unfold decodeBody
+  split
+  rename_i dom c1 e1 he1
+  rw [decodeStereoHead_mono hc] at he1
+  cases he1
+  split
+  rename_i e2' st2' c2' he2
+  rw [decodeChans_mono hc, hch] at he2
+  cases he2
+  rfl
+
+theorem decide_false_or (p : Prop) [Decidable p] : decide ((0 : Nat) ≠ 0 ∨ p) = decide p := by simp
+
+/-- The first frame of the mid channel in normal decoding: coded independently. -/
+theorem decodeChan_first {cfg : Cfg} (hl : cfg.lostFlag = 0) (hs : Bool) (st : SilkSt) (c : Dec)
+    (h0 : st.ch0.nFramesDecoded = 0) {evs : List Ev} {ix : Indices} {c' : Dec}
+    (hone : decodeOneCore cfg 0 0 0 0 (decide (st.ch0.vad.getD 0 0 ≠ 0)) 0 0 c = (evs, ix, c')) :
+    ∃ st', decodeChan cfg hs 0 st c = (evs, st', c') := by
+  unfold decodeChan
+  have hch : st.ch 0 = st.ch0 := rfl
+  rw [if_pos (by simp [readsFrame, hl]), hch, h0, hl]
+  have hcc : condCodingOf cfg st 0 0 = 0 := rfl
+  rw [hcc]
+  unfold decodeOne
+  rw [decide_false_or, if_neg (by decide), if_neg (fun hh => absurd hh.1 (by decide)), hone]
+  exact ⟨_, rfl⟩
+
+/-- Decoder state after the header of a mono one-frame packet without LBRR data. -/
+def mono1St (st1 : SilkSt) (vad : Nat) : SilkSt :=
+  { st1 with ch0 := { st1.ch0 with vad := [vad], lbrrFlag := 0, lbrrFlags := [0, 0, 0] } }
+
+theorem decodeHeader_mono1 {cfg : Cfg} (hc : cfg.nCh = 1) (hf : cfg.nfpp = 1) (hl : cfg.lostFlag = 0) (st1 : SilkSt)
+    {vad : Nat} {d : Dec} (hv : vad ≤ 1) (h : Reads d (flagOps [vad] ++ [.bitLogp 0 1])) :
+    decodeHeader cfg st1 d =
+      { st := mono1St st1 vad, dom := 0,
+        c := after d (flagOps [vad] ++ [.bitLogp 0 1]), evs := [.flags 0 [vad] 0 [0, 0, 0]] } := by
+  have hfl := decodeChanFlags_spec (vs := [vad]) (l := 0) (d := d)
+    (fun v hm => by rw [List.mem_singleton] at hm; rw [hm]; exact hv) (by decide) h
+  have hr1 : List.range 1 = [0] := rfl
+  unfold decodeHeader
+  rw [if_pos hl, if_neg (by rw [hc]; decide), hf, hr1]
+  unfold decodeFlagsMono
+  rw [hf]
+  split
+  rename_i v0 l0 c1 e1
+  rw [show (1 : Nat) = [vad].length from rfl, hfl] at e1
+  cases e1
+  split
+  rename_i f0 c2 e2
+  rw [decodeLbrrFlags, if_pos rfl] at e2
+  cases e2
+  rw [skipFrames, skipFrames, hc, hr1, skipChans, skipChans, skipOne]
+  rw [if_neg (by simp [SilkSt.ch])]
+  rfl
+
 /-! ### A mono packet of one frame, no LBRR -/
 
 /-- The configuration of the `silk_Decode` call for a mono packet with one SILK frame. -/
@@ -131,53 +203,89 @@ theorem silkDecodeCall_mono1 {rate : Rate} {nbSubfr vad : Nat} {ix : Indices} {p
        after d (flagOps [vad] ++ [.bitLogp 0 1] ++ a)) := by
   rw [reads_append] at h
   rw [after_append]
-  generalize hcfg : monoCfg rate nbSubfr = cfg
-  have c_nCh : cfg.nCh = 1 := by rw [← hcfg]; rfl
-  have c_nfpp : cfg.nfpp = 1 := by rw [← hcfg]; rfl
-  have c_lost : cfg.lostFlag = 0 := by rw [← hcfg]; rfl
-  have c_rate : cfg.rate = rate := by rw [← hcfg]; rfl
-  have c_nb : cfg.nbSubfr = nbSubfr := by rw [← hcfg]; rfl
-  have hb0 : (beginCall cfg true st).ch0.nFramesDecoded = 0 := by
+  have hb0 : (beginCall (monoCfg rate nbSubfr) true st).ch0.nFramesDecoded = 0 := by
     unfold beginCall
     simp only [if_true]
-    split <;> rfl
-  generalize beginCall cfg true st = st1 at hb0
   unfold silkDecodeCall
-  rw [if_pos hb0]
-  unfold decodeHeader
-  rw [if_pos c_lost, if_neg (by rw [c_nCh]; decide), c_nfpp]
-  -- header flags
-  unfold decodeFlagsMono
-  have hfl := decodeChanFlags_spec (vs := [vad]) (l := 0) (d := d)
-    (fun v hm => by rw [List.mem_singleton] at hm; rw [hm]; exact hv) (by decide) h.1
-  rw [c_nfpp]
-  split
-  rename_i v0 l0 c1 e1
-  rw [show (1 : Nat) = [vad].length from rfl, hfl] at e1
-  cases e1
-  split
-  rename_i f0 c2 e2
-  rw [decodeLbrrFlags, if_pos rfl] at e2
-  cases e2
-  -- no LBRR data to skip
-  have hr1 : List.range 1 = [0] := rfl
-  rw [hr1, skipFrames, skipFrames, c_nCh, hr1, skipChans, skipChans, skipOne]
-  rw [if_neg (by simp [SilkSt.ch])]
-  -- the frame
-  unfold decodeBody
-  simp only
-  unfold decodeStereoHead decodeStereoHeadG
-  rw [if_neg (by rw [c_nCh]; simp)]
-  simp only
-  unfold decodeChans
-  rw [if_neg (by rw [c_nCh]; decide)]
-  unfold decodeChan
-  rw [if_pos (by simp [readsFrame, c_lost])]
-  unfold decodeOne
-  have hcc : condCodingOf cfg { st1 with ch0 := { st1.ch0 with vad := [vad], lbrrFlag := 0, lbrrFlags := [0, 0, 0] } } 0
-      ({ st1 with ch0 := { st1.ch0 with vad := [vad], lbrrFlag := 0, lbrrFlags := [0, 0, 0] } } : SilkSt).ch0.nFramesDecoded = 0 := by
-    simp [condCodingOf, hb0]
-  simp only [SilkSt.ch, if_true, hb0] at hcc ⊢
-  sorry
+  generalize beginCall (monoCfg rate nbSubfr) true st = st1 at hb0 ⊢
+  rw [if_pos hb0, decodeHeader_mono1 (cfg := monoCfg rate nbSubfr) rfl rfl rfl st1 hv h.1]
+  have hone := decodeOneCore_spec (cfg := monoCfg rate nbSubfr) (n := 0) (fi := 0) (lbrrN := 0) (lbrr := false)
+    (v := decide (vad ≠ 0)) hnb hix hp ha h.2
+  have hone' : decodeOneCore (monoCfg rate nbSubfr) 0 0 0 0 (decide ((mono1St st1 vad).ch0.vad.getD 0 0 ≠ 0)) 0 0
+      (after d (flagOps [vad] ++ [.bitLogp 0 1])) = _ := hone
+  obtain ⟨st', hch⟩ := decodeChan_first (cfg := monoCfg rate nbSubfr) rfl
+    (hasSideOf (monoCfg rate nbSubfr) (mono1St st1 vad) 0) (mono1St st1 vad)
+    (after d (flagOps [vad] ++ [.bitLogp 0 1])) hb0 hone'
+  rw [decodeBody_mono (cfg := monoCfg rate nbSubfr) rfl _ hch]
+  exact ⟨_, rfl⟩
+
+/-! ### Through the real range coder -/
+
+theorem placeholder_eq (k : Nat) : placeholder k = .icdf 0 (flagTable k) 8 := rfl
+
+theorem lastPatch_ic (t v n : Nat) : ∀ (ops : List Op), IcLegal ops → lastPatch t (ops ++ [.patchInitial v n]) = v := by
+  intro ops
+  induction ops with
+  | nil => intro _; rfl
+  | cons op ops ih =>
+    intro h
+    rcases h op (List.mem_cons_self ..) with ⟨s, tbl, rfl, _, _⟩
+    rw [List.cons_append, lastPatch]
+    exact ih (fun o ho => h o (List.mem_cons_of_mem _ ho))
+
+theorem after_patch (c : Dec) (v n : Nat) : after c [.patchInitial v n] = c := rfl
+
+theorem tell_congr {a b : Ctx} (h1 : a.rng = b.rng) (h2 : a.nbitsTotal = b.nbitsTotal) : tell a = tell b := by
+  unfold tell; rw [h1, h2]
+
+/-- Milestone: a mono packet of one SILK frame without LBRR data.  For every index/pulse assignment in the
+    encoder's domain, any buffer, `error = 0` after `ec_enc_done`: C03's decoder model run on the bytes the
+    encoder model produces reports exactly the VAD flag, the indices and the pulses that were encoded, and
+    ends with the encoder's `rng` and `ec_tell`. -/
+theorem silk_syms_roundtrip_frame_all (buf : List Nat) (size : Nat) (rate : Rate) (nbSubfr vad : Nat) (ix : Indices)
+    (pulses : List Int) (ops : List Op) (st : SilkSt) (hs : size ≤ buf.length) (hb : BytesOk buf)
+    (hnb : nbSubfr = 2 ∨ nbSubfr = 4) (hv : vad ≤ 1) (hix : IxOk rate nbSubfr (decide (vad ≠ 0)) 0 ix)
+    (hp : PulsesOk (frameLength rate nbSubfr) pulses) (hops : encodeMonoFrame rate nbSubfr vad ix pulses = .ok ops)
+    (hnbits : (encodeAll buf size ops).nbitsTotal < 4294967296) (herr : (encodeAll buf size ops).error = 0) :
+    (silkDecodeCall (monoCfg rate nbSubfr) true st
+        (decInit ((encodeAll buf size ops).buf.take (encodeAll buf size ops).storage) (encodeAll buf size ops).storage)).1 =
+      monoEvents rate nbSubfr vad ix pulses (encRun (encInit buf size) ops).rng (tell (encRun (encInit buf size) ops)) ∧
+    (silkDecodeCall (monoCfg rate nbSubfr) true st
+        (decInit ((encodeAll buf size ops).buf.take (encodeAll buf size ops).storage) (encodeAll buf size ops).storage)).2.2.error = 0 ∧
+    (silkDecodeCall (monoCfg rate nbSubfr) true st
+        (decInit ((encodeAll buf size ops).buf.take (encodeAll buf size ops).storage) (encodeAll buf size ops).storage)).2.2.rng =
+      (encRun (encInit buf size) ops).rng ∧
+    (silkDecodeCall (monoCfg rate nbSubfr) true st
+        (decInit ((encodeAll buf size ops).buf.take (encodeAll buf size ops).storage) (encodeAll buf size ops).storage)).2.2.nbitsTotal =
+      (encRun (encInit buf size) ops).nbitsTotal := by
+  unfold encodeMonoFrame at hops
+  split at hops
+  all_goals (try (cases hops; done))
+  rename_i a ha
+  injection hops with hops
+  subst hops
+  rw [placeholder_eq] at hnbits herr ⊢
+  have hleg := encodeFrame_legal hix hp ha
+  have hl : LegalRunP 2 (encOp (encInit buf size) (.icdf 0 (flagTable 2) 8)) (a ++ [.patchInitial (2 * vad) 2]) :=
+    legalRunP_of_ic 2 (2 * vad) (by omega) a _ hleg
+  have h12 : 1 ≤ 2 := by decide
+  have h28 : 2 ≤ 8 := by decide
+  have k1 := decode_encode_flags_all buf size 2 (a ++ [.patchInitial (2 * vad) 2]) hs hb h12 h28
+  have k2 := k1 hl
+  have k3 := k2 hnbits
+  have key := k3 herr
+  clear k1 k2 k3
+  generalize decInit ((encodeAll buf size (.icdf 0 (flagTable 2) 8 :: (a ++ [.patchInitial (2 * vad) 2]))).buf.take
+    (encodeAll buf size (.icdf 0 (flagTable 2) 8 :: (a ++ [.patchInitial (2 * vad) 2]))).storage)
+    (encodeAll buf size (.icdf 0 (flagTable 2) 8 :: (a ++ [.patchInitial (2 * vad) 2]))).storage = d0 at key ⊢
+  rw [lastPatch_ic 0 (2 * vad) 2 a hleg, bitsOps_mono1 hv] at key
+  rcases key with ⟨hm, hall⟩
+  rw [← reads_iff, ← List.append_assoc, reads_append] at hm
+  rw [← after_eq, ← List.append_assoc, after_append, after_patch] at hall
+  obtain ⟨st', hcall⟩ := silkDecodeCall_mono1 st hnb hv hix hp ha hm.1
+  rw [hcall]
+  refine ⟨?_, hall.err, hall.rc.rng_eq, hall.rc.nbits_eq⟩
+  show monoEvents _ _ _ _ _ _ _ = monoEvents _ _ _ _ _ _ _
+  rw [hall.rc.rng_eq, tell_congr hall.rc.rng_eq hall.rc.nbits_eq]
 
 end Opus.SilkSymsEncProofs
